@@ -317,6 +317,27 @@ def gen_eq_cases(rng, tier):
         ps = list(perturbations(a, tag))
         rel, b = rng.choice(ps)
         yield {"op": "eq", "a": a, "b": b, "rel": rel}
+    # numbers held as Python numbers (messages built by a driver carry floats and ints, not text): two messages whose numeric
+    # attribute / child value / child attribute differ only far behind the leading digits are different messages
+    close = [(1234567.125, 1234567.25), (2460310.5000001, 2460310.5000002), (0.1234567, 0.12345675), (16777216, 16777217), (5, 5.5)]
+    for tag, (cls, base, optional, child, vkind) in MSGS.items():
+        numeric_kw = [k for k in list(base) + list(optional) if k in ("timeout",)]
+        for x, y in close:
+            for k in numeric_kw:
+                a = msg_recipe(tag, tuple(optional), [part_recipe(child, "e0")] if child else None)
+                a["kw"][k] = x
+                b = clone(a); b["kw"][k] = y
+                yield {"op": "eq", "a": a, "b": b, "rel": "attr-changed:" + k}
+                yield {"op": "eq", "a": a, "b": clone(a), "rel": "copy"}
+            if child is not None:
+                pbase = PARTS[child][1]
+                for k in [k for k in ("min", "max", "step", "size") if k in pbase] + (["value"] if PARTS[child][2] == "number" else []):
+                    for pos in (0, 2):
+                        ch = [part_recipe(child, "e%d" % i) for i in range(3)]
+                        a = msg_recipe(tag, (), ch)
+                        a["children"][pos]["kw"][k] = x
+                        b = clone(a); b["children"][pos]["kw"][k] = y
+                        yield {"op": "eq", "a": a, "b": b, "rel": "child-attr-changed:%d" % pos}
     # long values: a difference far from the start (same length), in the text of every child kind that takes free text and in
     # every free attribute of a message and of a child
     for tag, (cls, base, optional, child, vkind) in MSGS.items():
